@@ -160,27 +160,36 @@ func (p DPath) OnPath(v ssa.Value) ssa.Value {
 	return v
 }
 
-// boolHelper: cond is a call of a loop-free module function returning a single bool.
-func boolHelper(cond ssa.Value) (*ssa.Call, *ssa.Function) {
-	call, ok := Strip(cond).(*ssa.Call)
+// boolHelper: cond is a call of a loop-free module function returning a single bool, or the bool result of a
+// module function with several results (`n, ok := steps(d)`).
+func boolHelper(cond ssa.Value) (*ssa.Call, *ssa.Function, int) {
+	v := Strip(cond)
+	idx := 0
+	if ex, ok := v.(*ssa.Extract); ok {
+		v, idx = ex.Tuple, ex.Index
+	}
+	call, ok := v.(*ssa.Call)
 	if !ok {
-		return nil, nil
+		return nil, nil, 0
 	}
 	f := Callee(call)
-	if f == nil || f.Blocks == nil || !core.InModule(f) || f.Signature.Results().Len() != 1 {
-		return nil, nil
+	if f == nil || f.Blocks == nil || !core.InModule(f) || idx >= f.Signature.Results().Len() {
+		return nil, nil, 0
 	}
-	if b, ok := f.Signature.Results().At(0).Type().Underlying().(*types.Basic); !ok || b.Kind() != types.Bool {
-		return nil, nil
+	if _, isEx := Strip(cond).(*ssa.Extract); !isEx && f.Signature.Results().Len() != 1 {
+		return nil, nil, 0
 	}
-	return call, f
+	if b, ok := f.Signature.Results().At(idx).Type().Underlying().(*types.Basic); !ok || b.Kind() != types.Bool {
+		return nil, nil, 0
+	}
+	return call, f, idx
 }
 
 // ExpandLit replaces a literal on a bool-helper call by the alternatives (conjunctions of the helper's own
 // branch literals) under which the helper returns the literal's value. Operands of the new literals are
 // translated into the caller's frame through Lit.Tr.
 func ExpandLit(l Lit, depth int, stop func(*ssa.Function) bool) [][]Lit {
-	call, f := boolHelper(l.Cond)
+	call, f, ridx := boolHelper(l.Cond)
 	if f == nil || depth <= 0 || (stop != nil && stop(f)) {
 		return [][]Lit{{l}}
 	}
@@ -208,7 +217,7 @@ func ExpandLit(l Lit, depth int, stop func(*ssa.Function) bool) [][]Lit {
 		if p.Ret == nil {
 			continue
 		}
-		res := p.OnPath(Strip(p.Ret.Results[0]))
+		res := p.OnPath(Strip(p.Ret.Results[ridx]))
 		for i := 0; i < 3; i++ {
 			res = p.OnPath(Strip(res))
 		}
